@@ -8,7 +8,6 @@ import (
 	"time"
 
 	"github.com/tilinna/clock"
-	"golang.org/x/time/rate"
 
 	"github.com/atlassian/gostatsd"
 	"github.com/atlassian/gostatsd/pkg/cachedinstances/cloudprovider"
@@ -74,10 +73,15 @@ func (p *asyncProvider) snapshot() [][]gostatsd.Source {
 
 func genAsync(r *hlib.Rand) input {
 	n := r.Range(1, 5)
+	limit := hlib.Pick(r, []int{1, 2, 3, 4, 5, 2, 3, 4, 8, 16, 32, 40})
+	nsub, maxk := r.Range(1, 3), 8
+	if limit > 5 { // enough submissions within one 10 ms window to fill a batch now and then
+		n, nsub, maxk = r.Range(3, 7), r.Range(2, 4), 14
+	}
 	srcs := append([]string(nil), sourcePool[:n]...)
-	subs := make([][]string, r.Range(1, 3))
+	subs := make([][]string, nsub)
 	for i := range subs {
-		k := r.Range(1, 8)
+		k := r.Range(1, maxk)
 		for j := 0; j < k; j++ {
 			subs[i] = append(subs[i], hlib.Pick(r, srcs))
 		}
@@ -87,7 +91,13 @@ func genAsync(r *hlib.Rand) input {
 	for i := range script {
 		script[i] = hlib.Pick(r, modes)
 	}
-	return input{Kind: "async", Cfg: cfgIn{Limit: r.Range(1, 5)}, Async: &asyncIn{Subs: subs, Script: script}}
+	// the limiter: rate Inf, or a fast finite rate with a bucket of 1, 2 or 15 tokens (below the batch limit
+	// as often as not; one provider call costs one token whatever its size)
+	limiter, lburst := "inf", 0
+	if r.Chance(3, 4) {
+		limiter, lburst = "burst", hlib.Pick(r, []int{1, 1, 2, 15})
+	}
+	return input{Kind: "async", Cfg: cfgIn{Limit: limit}, Async: &asyncIn{Subs: subs, Script: script, Limiter: limiter, Burst: lburst}}
 }
 
 func idOf(i *gostatsd.Instance) string {
@@ -104,10 +114,13 @@ func sortedEq(a, b []string) bool {
 	return fmt.Sprint(a) == fmt.Sprint(b) && len(a) == len(b)
 }
 
-const asyncWait = 10 * time.Second
+const asyncWait = 4 * time.Second
 
 func runAsync(in input) hlib.Case {
 	c := hlib.Case{Input: in, Class: fmt.Sprintf("async/limit=%d", in.Cfg.Limit)}
+	if in.Async != nil && in.Async.Limiter == "burst" {
+		c.Class += fmt.Sprintf("/burst=%d", in.Async.Burst)
+	}
 	if in.Async == nil || len(in.Async.Script) == 0 || in.Cfg.Limit < 1 {
 		c.Class = "async/invalid-input"
 		return c
@@ -117,7 +130,8 @@ func runAsync(in input) hlib.Case {
 	prov := &asyncProvider{limit: in.Cfg.Limit, script: in.Async.Script}
 	mock := clock.NewMock(time.Now())
 	ctx, cancel := context.WithCancel(clock.Context(context.Background(), mock))
-	ccp := cloudprovider.NewCachedCloudProvider(quietLogger(), rate.NewLimiter(rate.Inf, 1), prov, gostatsd.CacheOptions{
+	limiter, _ := mkLimiter(in.Async.Limiter, in.Async.Burst)
+	ccp := cloudprovider.NewCachedCloudProvider(quietLogger(), limiter, prov, gostatsd.CacheOptions{
 		CacheRefreshPeriod:        time.Hour,
 		CacheEvictAfterIdlePeriod: 90 * time.Minute,
 		CacheTTL:                  time.Minute,
@@ -287,8 +301,15 @@ func runAsync(in input) hlib.Case {
 	wg.Wait()
 	c.Obs = map[string]interface{}{"calls": prov.snapshot(), "answers": gotCount()}
 	callTerms := []string{}
+	maxBatch := 0
 	for _, call := range prov.snapshot() {
 		callTerms = append(callTerms, coqSources(call))
+		if len(call) > maxBatch {
+			maxBatch = len(call)
+		}
+	}
+	if in.Async.Limiter == "burst" && maxBatch > in.Async.Burst {
+		c.Class += "+batch>burst"
 	}
 	c.Coq = hlib.App("AsyncCase", hlib.Z(int64(in.Cfg.Limit)), hlib.List(callTerms))
 	c.Nontrivial = len(submitted) >= 2 && len(prov.snapshot()) >= 2
